@@ -16,15 +16,16 @@ from ..engine import Engine
 
 RULE = ("generated documents in one-keyword-per-line layout with uniquely numbered # and /* */ comments at the end of every simple "
         "keyword line and directly above object/METADATA/VALIDATION/CONNECTIONOPTIONS openers (all four clauses), documents with "
+        "snippet documents whose roots are key-value blocks or objects with numbered comments above each root opener, documents with "
         "random gap comments and the corpus files with their own comments (verbatim / no-duplication / content clauses), printed with "
         "newlinechar LF and CRLF; distinct = distinct source text; non-trivial = the source holds at least one comment")
 EVAL_KEY = "documents_judged"
 DISTINCT_KEY = "documents"
 NSHARDS = {"quick": 8, "thorough": 16}
 FLOORS = {"quick": {"documents_judged": 600, "output_comments_checked": 5000, "placed_trailing_checked": 800, "placed_above_checked": 400,
-                    "content_checks": 600},
+                    "content_checks": 600, "snippet_documents": 100},
           "thorough": {"documents_judged": 10000, "output_comments_checked": 100000, "placed_trailing_checked": 25000,
-                       "placed_above_checked": 12000, "content_checks": 10000}}
+                       "placed_above_checked": 12000, "content_checks": 10000, "snippet_documents": 2000}}
 ASSUMPTIONS = ["mf/reader.py's comment scanner (agrees with the lexer's capture on all corpus comments)",
                "the printer is documented and tested to merge several comments of one keyword with single spaces: joins are decomposed"]
 DOMAIN = gen.DOMAIN + ["documents whose strings contain the default quote character or a backslash are skipped",
@@ -179,6 +180,7 @@ def run(ctx):
     for path, text in corpus.texts(ctx):
         for o in (optsets[:2] if ctx.quick else optsets):
             judge(ctx, eng, text, "corpus", corpus.rel(path), dict(o))
+    snippets(ctx, eng, r, optsets)
     n = ctx.n(500, 16000)
     for j in range(n):
         nodes = gen.gen_document(r, gen.GenOpts(gated=ctx.gated, p_key=r.choice([0.2, 0.4]), dup=0.0,
@@ -197,6 +199,28 @@ def run(ctx):
             s.gap_comments = r.choice([0.2, 0.5])
             text = render.render(nodes, s, r).text
             judge(ctx, eng, text, "gap-comments", h(text), dict(r.choice(optsets)))
+
+
+def snippets(ctx, eng, r, optsets):
+    """Snippet documents (what an INCLUDEd file or a hand-made fragment holds): one to three roots, key-value blocks among them, each
+    with uniquely numbered comment lines directly above its opener."""
+    for j in range(ctx.n(120, 2400)):
+        parts, placed = [], []
+        for i in range(r.choice([1, 1, 1, 2, 3])):
+            n = r.randint(1, 3)
+            if i == 0 or r.random() < 0.6:
+                kw = r.choice(["METADATA", "VALIDATION", "CONNECTIONOPTIONS"])
+                body = [f'  "k{x}" "{r.choice(["v", "a b", "1", "wms title"])}{x}"' for x in range(r.randint(0, 3))]
+            else:
+                kw = r.choice(["CLASS", "STYLE", "LABEL", "LAYER"])
+                body = [{"CLASS": '  NAME "c"', "STYLE": "  SIZE 3", "LABEL": "  SIZE 8", "LAYER": '  NAME "l"\n  TYPE POINT'}[kw]]
+            cm = [(f"# snippet {j}.{i}.{c} above {kw.lower()}" if r.random() < 0.7 else f"/* snippet {j}.{i}.{c} above {kw.lower()} */") for c in range(n)]
+            parts.append("\n".join(cm + [kw if r.random() < 0.7 else kw.lower()] + body + ["END"]))
+            placed += [(c, "above", kw.lower(), (j, i)) for c in cm]
+        eol = r.choice(["\n", "\r\n"])
+        text = eol.join("\n".join(parts).split("\n")) + eol
+        ctx.res.count("snippet_documents")
+        judge(ctx, eng, text, "snippet", h(text), dict(r.choice(optsets[:4])), placed=placed)
 
 
 def replay(ctx, v):
